@@ -71,7 +71,8 @@ StrTab == <<
   [dq |-> "",                        sq |-> ""],
   [dq |-> "...x **y *z _(",          sq |-> "...x **y *z _("],
   [dq |-> "{ 'a': 1 }",              sq |-> "{ \\'a\\': 1 }"],
-  [dq |-> ":1",                      sq |-> ":1"] >>
+  [dq |-> ":1",                      sq |-> ":1"],
+  [dq |-> "R&D <i>\\\"it's\\\"</i>",   sq |-> "R&D <i>\"it\\'s\"</i>"] >>
 
 \* Strings with nested template syntax.  q: the quote they are written in (escapes inside
 \* nested templates are not specified, so the quote kind is fixed per entry); c: content;
@@ -86,12 +87,33 @@ TplTab == <<
   [q |-> "'",  c |-> "a {# c #}b",                       single |-> FALSE, inner |-> <<>>],
   [q |-> "'",  c |-> "{{ xs|first }}",                   single |-> TRUE,  inner |-> <<"xs|first">>],
   [q |-> "\"", c |-> "{{ s }}",                          single |-> TRUE,  inner |-> <<"s">>],
-  [q |-> "\"", c |-> "{% if x %}[{{ x }}, 2]{% endif %}", single |-> FALSE, inner |-> <<>>] >>
+  [q |-> "\"", c |-> "{% if x %}[{{ x }}, 2]{% endif %}", single |-> FALSE, inner |-> <<>>],
+  \* 9.. : over the value-sensitive part of Ctx (None / falsy values, HTML-special characters).
+  \* A single {{ }} tag hands over the ORIGINAL value - no stringification, no escaping; anything
+  \* else is the text a stock template renders (there autoescaping applies as in stock Django).
+  [q |-> "\"", c |-> "{{ amp }}",                        single |-> TRUE,  inner |-> <<"amp">>],
+  [q |-> "'",  c |-> "{{ h }}",                          single |-> TRUE,  inner |-> <<"h">>],
+  [q |-> "\"", c |-> "{{ nn }}",                         single |-> TRUE,  inner |-> <<"nn">>],
+  [q |-> "\"", c |-> "{{ h|upper }}",                    single |-> TRUE,  inner |-> <<"h|upper">>],
+  [q |-> "'",  c |-> "{{ hs|first }}",                   single |-> TRUE,  inner |-> <<"hs|first">>],
+  [q |-> "\"", c |-> "{{ amp }}!",                       single |-> FALSE, inner |-> <<>>],
+  [q |-> "\"", c |-> "{{ sf }}",                         single |-> TRUE,  inner |-> <<"sf">>],
+  [q |-> "\"", c |-> "{{ hs }}",                         single |-> TRUE,  inner |-> <<"hs">>],
+  [q |-> "'",  c |-> "{{ dn }}",                         single |-> TRUE,  inner |-> <<"dn">>],
+  [q |-> "\"", c |-> "{{ dh }}",                         single |-> TRUE,  inner |-> <<"dh">>],
+  [q |-> "\"", c |-> "{{ nn }}{{ f }}",                  single |-> FALSE, inner |-> <<>>],
+  [q |-> "'",  c |-> "{% firstof nn h %}",               single |-> FALSE, inner |-> <<>>],
+  [q |-> "\"", c |-> "{{ z }}",                          single |-> TRUE,  inner |-> <<"z">>],
+  [q |-> "\"", c |-> "{{ es }}",                         single |-> TRUE,  inner |-> <<"es">>] >>
 
 (* ------------------------------ context ------------------------------- *)
-\* Values are tagged: int i, str s, list items, dict items (sequence of [k, v] in insertion order).
+\* Values are tagged: int i, str s, none, bool b, safe s (a str marked safe for HTML output - top
+\* level of Ctx only), list items, dict items (sequence of [k, v] in insertion order).
 I(n)  == [t |-> "int", i |-> n]
 St(s) == [t |-> "str", s |-> s]
+Nil   == [t |-> "none"]
+B(b)  == [t |-> "bool", b |-> b]
+Sf(s) == [t |-> "safe", s |-> s]
 L(xs) == [t |-> "list", items |-> xs]
 D(es) == [t |-> "dict", items |-> es]
 E(k, v) == [k |-> k, v |-> v]
@@ -106,7 +128,24 @@ Ctx == [x    |-> I(7),
         d    |-> D(<<E(St("k1"), I(1)), E(St("k-2"), St("v"))>>),
         d2   |-> D(<<E(St("@m.n"), L(<<I(2)>>)), E(St("z"), I(0))>>),
         only |-> I(5),
-        o    |-> D(<<E(St("p"), D(<<E(St("q"), I(9))>>))>>)]
+        o    |-> D(<<E(St("p"), D(<<E(St("q"), I(9))>>))>>),
+        \* The property quantifies over ALL context values: the part below makes the values that
+        \* code likes to confuse with "nothing" (None, False, 0, "", missing) and text holding the
+        \* HTML-special characters & < > ' " available in every argument position - as a value,
+        \* as a dict key, as an item / key / value that comes out of a spread.
+        nn   |-> Nil,
+        f    |-> B(FALSE),
+        z    |-> I(0),
+        es   |-> St(""),
+        amp  |-> St("Tom & Jerry"),
+        h    |-> St("<b class=\"x\">it's</b>"),
+        sf   |-> Sf("<i>R&amp;D</i>"),
+        hs   |-> L(<<St("x&y"), Nil, St("<"), I(0)>>),
+        dn   |-> D(<<E(Nil, St("a&b")), E(St("<k>"), Nil), E(I(0), B(FALSE)), E(St(""), St("'"))>>),
+        dh   |-> D(<<E(St("t"), St("R&D")), E(St("u"), Nil), E(St("a&b"), St("")), E(St("<w>"), I(0)),
+                     E(St("it's"), B(FALSE))>>)]
+\* `None`, `True` and `False` are written like variables and mean the Python constants in a stock
+\* Django expression (as every leaf they are valued by stock Django): Var("None"), Var("False").
 
 (* ------------------------------ layout -------------------------------- *)
 \* A style fixes the insignificant choices.  Whitespace fields are "" or a non-empty
@@ -260,8 +299,14 @@ DEntries(items, i) ==
        \o DEntries(items, i + 1)
 
 \* Does a top-level spread operand yield positional values (list) or keyword values (dict)?
-SpreadBase(v) == IF v.t = "filt" THEN v.b ELSE v      \* the filters used on spread operands keep the kind
+\* the filters used on spread operands keep the kind; a string that is a single {{ var }} tag
+\* stands for the value of var itself
+TplVar(v) == v.t = "tpl" /\ TplTab[v.id].single /\ Len(TplTab[v.id].inner) = 1
+             /\ TplTab[v.id].inner[1] \in DOMAIN Ctx
+SpreadBase(v) == IF v.t = "filt" THEN v.b ELSE IF TplVar(v) THEN Var(TplTab[v.id].inner[1]) ELSE v
 IsListy(v) == v.t = "list" \/ (SpreadBase(v).t = "var" /\ Ctx[SpreadBase(v).n].t = "list")
+\* every key of the dict variable n is a str (only such a dict can become keyword arguments)
+StrKeyed(n) == Ctx[n].t = "dict" /\ \A i \in 1..Len(Ctx[n].items) : Ctx[n].items[i].k.t = "str"
 Name(s) == [t |-> "name", s |-> s]
 
 RECURSIVE DPos(_, _), DKws(_, _), AggOf(_, _, _), Prefixes(_, _, _)
